@@ -10,8 +10,8 @@ os.makedirs('/verif/seeded', exist_ok=True)
 for sid, (prop, what, needs) in INFO.items():
     name, i = sid.split('-')
     src = f'/tmp/seed/{name}/SEED_OUT'
-    if not os.path.exists(f'{R}/{sid}.verify.log'):
-        continue
+    if not os.path.exists(f'{R}/{sid}.verify.log') or not os.path.exists(f'{src}/change{i}.diff'):
+        continue  # not processed yet, or adopted earlier (its scratch worktree is gone)
     dst = f'/verif/seeded/{sid}'
     os.makedirs(dst, exist_ok=True)
     shutil.copy(f'{src}/change{i}.diff', f'{dst}/patch.diff')
